@@ -1,6 +1,6 @@
 #!/bin/bash
 # usage: trymut.sh <patch> <prop> [<prop> ...] : apply a seeded change to /repo, run the checks, undo it
-patch=$1; shift
+patch=$(readlink -f "$1"); shift
 git -C /repo apply "$patch" || { echo "patch does not apply"; exit 2; }
 for p in "$@"; do echo "== $p"; /verif/check $p --tier quick 2>&1 | tail -4 | cut -c1-300; done
 git -C /repo checkout -- .
